@@ -25,7 +25,7 @@ LEVEL = "exploration"
 RULE = ("scenario = version (none / supported / cutoff +-1 day,month,year / random dddd-dd-dd 1990..2199) set by handshake or setter, "
         "+ server lines (single messages and batch arrays of 0..4 valid/invalid members, chunked) + version changes mid-connection; "
         "non-trivial = at least one batch array was processed; distinct also varies with the version stratum")
-PROBES = ["batch_rejected", "batch_accepted", "version_change_same_instant_as_batch", "mode_flipped_mid_connection",
+PROBES = ["rejection_while_outgoing_saturated", "legacy_request_streams_registered", "batch_rejected", "batch_accepted", "version_change_same_instant_as_batch", "mode_flipped_mid_connection",
           "invalid_member_dropped", "empty_batch", "handshake_set_version", "cutoff_neighbour_version"]
 TIERS = {"quick": {"runs": 15000, "wall": 45.0}, "thorough": {"runs": 1000000, "wall": 560.0}}
 ASSUMPTIONS = [
@@ -110,10 +110,19 @@ def generate(rng: random.Random, tier: str) -> dict:
         base = rng.choice(lines)["t"]
         changes.append({"t": max(0, base + rng.choice([-5, -1, 0, 0, 1, 5])), "v": _rand_version(rng), "tie": rng.choice([0, 2]), "hops": rng.choice([0, 1, 2])})
     changes.sort(key=lambda c: c["t"])
-    return {"v": 1, "setup": setup, "v0": v0, "lines": lines, "changes": changes, "uuid_seed": rng.getrandbits(40)}
+    saturate_draw = rng.random() < 0.08
+    if saturate_draw:
+        changes = []  # the reader may stay blocked behind the full pipe for a long time: keep the mode constant so "mode when processed" is well defined
+    return {"v": 1, "setup": setup, "v0": v0, "lines": lines, "changes": changes, "uuid_seed": rng.getrandbits(40),
+            "legacy_streams": rng.choice([None, None, None, "open", "closed"]),
+            "saturate": ({"n": rng.choice([101, 105, 130]), "resume_at": max(ln["t"] for ln in lines) + rng.choice([5, 50, 400])} if saturate_draw else None)}
 
 
 def simplify(scn):
+    if scn.get("saturate"):
+        c = copy.deepcopy(scn); c["saturate"] = None; yield c
+    if scn.get("legacy_streams"):
+        c = copy.deepcopy(scn); c["legacy_streams"] = None; yield c
     if scn["setup"] == "handshake":
         c = copy.deepcopy(scn); c["setup"] = "setter"; yield c
     for i, ln in enumerate(scn["lines"]):
@@ -175,6 +184,29 @@ def execute(scn: dict) -> dict:
                                                                          supported_versions=[scn["v0"]])
                     st["ver_log"].append((sim.rec("env", "handshake-done", scn["v0"]), sim.now(), str(res.protocolVersion), "handshake"))
                     st["handshake"] = True
+                if scn.get("legacy_streams"):
+                    # legacy one-shot streams registered for every response id the server is going to send (some abandoned)
+                    for ln in scn["lines"]:
+                        for m in (ln.get("batch") or ([ln["single"]] if "single" in ln else [])):
+                            if m.get("valid") in ("response", "error"):
+                                rs = client.new_request_stream(str(m["k"]))
+                                if scn["legacy_streams"] == "closed":
+                                    rs.close()
+                    st["legacy"] = True
+                if scn.get("saturate"):
+                    # the server stops reading its stdin while the client keeps queueing: the outgoing queue (100) and the pipe fill up
+                    child.capacity = 64
+                    child.pause_reading(True)
+                    sent_f = 0
+                    for q in range(scn["saturate"]["n"]):
+                        try:
+                            write_stream.send_nowait({"jsonrpc": "2.0", "method": "filler/noop", "params": {"q": q}})
+                            sent_f += 1
+                        except anyio.WouldBlock:
+                            await anyio.sleep(0)  # let the writer take one item, then go on
+                    st["fillers"] = sent_f
+                    sim.at(sim.now() + ticks(scn["saturate"]["resume_at"]), child.pause_reading, False, tie=2)
+                    sim.fault("outgoing_queue_saturated")
                 base = sim.now()
                 st["base"] = base
                 for ch in scn["changes"]:
@@ -185,7 +217,7 @@ def execute(scn: dict) -> dict:
                     cut = ln.get("cut")
                     pieces = [data[:cut], data[cut:]] if cut and 0 < cut < len(data) else [data]
                     sim.at(base + ticks(ln["t"]), child.write_stdout, pieces, tie=0, hops=ln["hops"])
-                last = max([ln["t"] for ln in scn["lines"]] + [c["t"] for c in scn["changes"]] + [0])
+                last = max([ln["t"] for ln in scn["lines"]] + [c["t"] for c in scn["changes"]] + [0] + ([scn["saturate"]["resume_at"]] if scn.get("saturate") else []))
                 async with anyio.create_task_group() as tg:
                     tg.start_soon(drain, read_stream, st["read"], name="drain-read")
                     tg.start_soon(drain, client.notifications, st["notif"], name="drain-notif")
@@ -286,7 +318,7 @@ def execute(scn: dict) -> dict:
             stdin_objs.append(json.loads(raw))
         except Exception:
             stdin_objs.append({"<unparsable>": raw[:80].decode("utf-8", "replace")})
-    back = [o for o in stdin_objs if not (isinstance(o, dict) and o.get("method") in ("initialize", "notifications/initialized"))]
+    back = [o for o in stdin_objs if not (isinstance(o, dict) and o.get("method") in ("initialize", "notifications/initialized", "filler/noop"))]
     matched = None
     for combo in itertools.product(*segs):
         exp_read = [x for (r, _n) in combo for x in r]
@@ -327,6 +359,10 @@ def execute(scn: dict) -> dict:
     modes_seq = [indep_batching(v) for (_e, _t, v, _w) in ver_events]
     if any(a != b for a, b in zip(modes_seq, modes_seq[1:])):
         probe("mode_flipped_mid_connection")
+    if st.get("legacy"):
+        probe("legacy_request_streams_registered")
+    if scn.get("saturate") and matched is not None and any(n_ for (_r, n_) in matched):
+        probe("rejection_while_outgoing_saturated")
     if st.get("handshake"):
         probe("handshake_set_version")
         fi = st["final_info"]
